@@ -44,6 +44,15 @@ def harnesses():
                     ["ToSql::to_sql(%s)" % tn.upper(), "FromSql::from_sql(%s)" % tn.upper()],
                     tier="quick" if (b == 16 and tn != "numeric") else "thorough", timeout=3600, domain="FULL value; the round trip is asserted whenever to_sql succeeds",
                     covers_required=["encodes"])
+    # the 55/56-byte short/long string boundary of RLP needs a width of at least 441 bits (seeded change C16-4)
+    for b in [448]:
+        l, nb = nlimbs(b), nbytes(b)
+        no = nb + 3
+        for crate in ("alloy_rlp", "fastrlp_03", "fastrlp_04"):
+            out.append(H("c16_%s_%d" % (crate, b), "C16", "c16::%s::<%d,%d,%d>" % (crate, b, l, no), unwind=no + 2, tier="thorough",
+                         inst="Uint<%d,%d>" % (b, l), domain="FULL value, one symbolic byte position (55- and 56-byte payloads: "
+                         "short and long string headers)", free_bits=b + 8, fns=[crate + "::Encodable::{encode,length}", crate + "::Decodable::decode"],
+                         role="c16::" + crate, stubs=[FMT], timeout=7200))
     for (b, ndg, rt, tier, to) in [(16, 2, 0, "quick", 1200), (16, 2, 1, "thorough", 3600), (32, 3, 0, "thorough", 3600)]:
         out.append(H("c16_pg_numeric_enc_%d%s" % (b, "_rt" if rt else ""), "C16", "c16::pg_numeric_enc::<%d,%d,%d>" % (b, ndg, rt),
                      unwind=ndg + 4, tier=tier, timeout=to, inst="Uint<%d,1>" % b, stubs=[FMT], role="c16::pg_numeric_enc",
